@@ -273,6 +273,10 @@ def match_finding(findings, prop, mm, ctx):
             continue
         if "pred" in sig and sig["pred"] and not mm.get("pred_match", False):
             continue
+        if "note" in sig and mm.get("note") != sig["note"]:
+            continue
+        if "step_lacks" in sig and any(re.search(sig["step_lacks"], w) for w in mm.get("step_whats", [])):
+            continue
         return f
     return None
 
